@@ -9,6 +9,12 @@ def parseKind? : String → Option Kind
   | "g" => some .login | "a" => some .append | "d" => some .idle | "u" => some .auth
   | "t" => some .starttls | _ => none
 
+/-- command numbers are 1-based on the line (tag numbers), 0-based in the model -/
+def idx? (r : List Char) : Option Nat :=
+  match natOfDigits? r with
+  | some (n + 1) => some n
+  | _ => none
+
 def parseSeg? (s : String) : Option Seg :=
   match s.toList with
   | 't' :: r => (natOfDigits? r).map Seg.txt
@@ -22,14 +28,14 @@ def parseItem? (s : String) : Option Item :=
     match h.toList with
     | ['g'] => (parseNat? v).map Item.greet
     | 'u' :: _ => (parseNat? v).map Item.line
-    | 'c' :: r => do pure (Item.cont (← natOfDigits? r) (← parseNat? v))
-    | 'F' :: r => do pure (Item.fetch (← natOfDigits? r) (← (splitOnChar v '.').mapM parseSeg?))
+    | 'c' :: r => do pure (Item.cont (← idx? r) (← parseNat? v))
+    | 'F' :: r => do pure (Item.fetch (← idx? r) (← (splitOnChar v '.').mapM parseSeg?))
     | 'T' :: r =>
       match splitOnChar v '.' with
       | [len, head] =>
         match r.reverse with
-        | '+' :: c => do pure (Item.tagged (← natOfDigits? c.reverse) true (← parseNat? len) (← parseNat? head))
-        | '-' :: c => do pure (Item.tagged (← natOfDigits? c.reverse) false (← parseNat? len) (← parseNat? head))
+        | '+' :: c => do pure (Item.tagged (← idx? c.reverse) true (← parseNat? len) (← parseNat? head))
+        | '-' :: c => do pure (Item.tagged (← idx? c.reverse) false (← parseNat? len) (← parseNat? head))
         | _ => none
       | _ => none
     | _ => none
@@ -38,11 +44,12 @@ def parseItem? (s : String) : Option Item :=
 def parsePhase? (s : String) : Option Phase :=
   match s.toList with
   | k :: r =>
-    match natOfDigits? r with
+    if k = 'G' then some .greetWait else
+    match idx? r with
     | none => none
     | some c =>
       match k with
-      | 'G' => some .greetWait | 'i' => some (.issue c) | 'W' => some (.wait c) | 'C' => some (.collect c)
+      | 'i' => some (.issue c) | 'W' => some (.wait c) | 'C' => some (.collect c)
       | 'N' => some (.loop c) | 'X' => some (.close c) | 'J' => some (.issueCont c) | 'I' => some (.idle c)
       | 'w' => some (.appendWrite c) | 'D' => some (.idleDone c) | 'U' => some (.auth c) | 'S' => some (.starttls c)
       | _ => none
@@ -99,7 +106,7 @@ def parseObs? (prog : List Phase) (obs : String) : Option ClientFaultSpec.Observ
          closeReturned := c = "1", readerExited := r = "1", probe := w }
 
 def cmdRefsOk (n : Nat) (items : List Item) (prog : List Phase) : Bool :=
-  let okc := fun c => 1 ≤ c && c ≤ n
+  let okc := fun c => decide (c < n)
   items.all (fun it => match it with
     | .cont c _ | .tagged c _ _ _ | .fetch c _ => okc c
     | _ => true) &&
